@@ -117,6 +117,15 @@ fn chars(src: &mut Src, st: &mut Stats, _env: &Env) -> CaseResult {
 /// Lexical corner cases: numbers around the i32 limits, '-' forms, quoted
 /// forms with escapes, bracket tokens with and without inner whitespace.
 fn lexical(src: &mut Src, st: &mut Stats, _env: &Env) -> CaseResult {
+    let text = gen_lexical(src);
+    st.eval();
+    let v = compare_accept("lexical", &text)?;
+    note(st, &text, v, true);
+    Ok(())
+}
+
+/// Lexical corner-case generator (shared with C05).
+pub fn gen_lexical(src: &mut Src) -> String {
     let num = |src: &mut Src| -> String {
         match src.below(8) {
             0 => format!("{}", src.range(-3, 3)),
@@ -125,7 +134,7 @@ fn lexical(src: &mut Src, st: &mut Stats, _env: &Env) -> CaseResult {
             3 => format!("-0{}", src.below(3)),
             4 => format!("00{}", src.below(9)),
             5 => "- 1".to_string(),
-            6 => format!("-{}", *src.pick(&["٣", "¹", "a", "", " ", "-1", "+1"])),
+            6 => format!("-{}{}", *src.pick(&["٣", "¹", "a", "", " ", "-1", "+1", "１", "½", "²", "①", "०", "৩", "٠"]), if src.flip() { "5" } else { "" }),
             _ => format!("{}{}", src.below(10), "0".repeat(src.below(14))),
         }
     };
@@ -162,10 +171,7 @@ fn lexical(src: &mut Src, st: &mut Stats, _env: &Env) -> CaseResult {
         8 => format!("f({})", (0..src.below(4)).map(|_| src.pick(&["a", "&a", "&&a", "& &a", "", " ", "a b", "(a)", "&(a)", "a,"]).to_string()).collect::<Vec<_>>().join(",")),
         _ => format!("{}({})", src.pick(&["f", "\"f\"", "(f)", "@", "a.f", "'f'", "`1`", "f ", "f.g", "[f]", "!f", "&f", "*"]), src.pick(&["", "a", "a,b", "&a"])),
     };
-    st.eval();
-    let v = compare_accept("lexical", &text)?;
-    note(st, &text, v, true);
-    Ok(())
+    text
 }
 
 fn corpus_all(_env: &Env, st: &mut Stats) -> Vec<Failure> {
@@ -180,6 +186,14 @@ fn corpus_all(_env: &Env, st: &mut Stats) -> Vec<Failure> {
     fails
 }
 
+fn fuzz_run(env: &Env, st: &mut Stats) -> Vec<Failure> {
+    crate::fuzzing::campaign("syntax_diff", env, st, 240)
+}
+
+fn fuzz_replay(case: &Value, env: &Env) -> CaseResult {
+    crate::fuzzing::replay("syntax_diff", case, env)
+}
+
 fn replay_text(case: &Value, _env: &Env) -> CaseResult {
     compare_accept("corpus", case["expression"].as_str().unwrap_or("")).map(|_| ())
 }
@@ -192,13 +206,15 @@ pub fn property() -> Property {
             "the reference grammar (ABNF at token level + documented lexical rules) is the language; it is validated against syntax.json and all other compliance expressions by `check selftest`".into(),
             "JSON validity of literals is delegated to serde_json on both sides; unrepresentable numerals and nesting > 128 are not generated".into(),
         ],
+        minimise: None,
         subs: vec![
             Sub::Custom(CustomSub { name: "corpus", run: corpus_all, replay: replay_text }),
-            Sub::Bytes(BytesSub { name: "sentences", f: sentences, max_len: 1500, quick: Budget { threads: 8, cases: 2500 }, thorough: Budget { threads: 16, cases: 80_000 } }),
-            Sub::Bytes(BytesSub { name: "mutants", f: mutants, max_len: 1200, quick: Budget { threads: 8, cases: 6000 }, thorough: Budget { threads: 16, cases: 300_000 } }),
-            Sub::Bytes(BytesSub { name: "soup", f: soup, max_len: 64, quick: Budget { threads: 8, cases: 8000 }, thorough: Budget { threads: 16, cases: 400_000 } }),
-            Sub::Bytes(BytesSub { name: "chars", f: chars, max_len: 64, quick: Budget { threads: 4, cases: 5000 }, thorough: Budget { threads: 16, cases: 200_000 } }),
-            Sub::Bytes(BytesSub { name: "lexical", f: lexical, max_len: 96, quick: Budget { threads: 8, cases: 6000 }, thorough: Budget { threads: 16, cases: 300_000 } }),
+            Sub::Custom(CustomSub { name: "fuzz-syntax_diff", run: fuzz_run, replay: fuzz_replay }),
+            Sub::Bytes(BytesSub { name: "sentences", f: sentences, max_len: 1500, quick: Budget { threads: 8, cases: 2500 }, thorough: Budget { threads: 16, cases: 80_000 }, keep_unreproducible: false }),
+            Sub::Bytes(BytesSub { name: "mutants", f: mutants, max_len: 1200, quick: Budget { threads: 8, cases: 6000 }, thorough: Budget { threads: 16, cases: 300_000 }, keep_unreproducible: false }),
+            Sub::Bytes(BytesSub { name: "soup", f: soup, max_len: 64, quick: Budget { threads: 8, cases: 8000 }, thorough: Budget { threads: 16, cases: 400_000 }, keep_unreproducible: false }),
+            Sub::Bytes(BytesSub { name: "chars", f: chars, max_len: 64, quick: Budget { threads: 4, cases: 5000 }, thorough: Budget { threads: 16, cases: 200_000 }, keep_unreproducible: false }),
+            Sub::Bytes(BytesSub { name: "lexical", f: lexical, max_len: 96, quick: Budget { threads: 8, cases: 6000 }, thorough: Budget { threads: 16, cases: 300_000 }, keep_unreproducible: false }),
         ],
     }
 }
